@@ -1,10 +1,10 @@
 #!/bin/bash
 # eval_round.sh <worktree-id> <checks...> : evaluate SEEDED/{1,2,3}/patch.diff of a round-2 agent
-ID=$1; shift
+ID=$1; shift  # e.g. C02r3
 for k in 1 2 3; do
   P=/tmp/wt/$ID/SEEDED/$k/patch.diff
   [ -f $P ] || { echo "$ID/$k: no patch"; continue; }
-  python3 /verif/tools/try_seeded.py $P "$@" 2>&1 | tail -1 | python3 -c "
+  python3 /verif/tools/try_seeded.py $P ${NB:+--no-baseline} "$@" 2>&1 | tail -1 | python3 -c "
 import json,sys
 try:
     d=json.loads(sys.stdin.read()); print('$ID/$k', d.get('baseline'), {k:(v['exit'],v['violations'],v['keys'][:2],v['machinery'][:1]) for k,v in d['results'].items()})
